@@ -41,11 +41,11 @@ def run(ctx):
     )
     run.trusted_base = ["CPython ast / re._parser", "spec/decorators.json"]
     run.assumptions = ["registries are module-level dicts mutated only by the _register_* functions (who-may-write is checked)"]
-    rule_map_agreement(ctx)
-    rule_validation_before_write(ctx)
-    rule_version_scope(ctx)
-    rule_builtin_parity(ctx)
-    rule_type_grammar(ctx)
+    ctx.do(rule_map_agreement)
+    ctx.do(rule_validation_before_write)
+    ctx.do(rule_version_scope)
+    ctx.do(rule_builtin_parity)
+    ctx.do(rule_type_grammar)
 
 
 def _registry_facts(fi):
